@@ -111,10 +111,25 @@ def run(ctx: Ctx):
             g = [(norm(t), pol) for t, pol in guards_of(c, pm)]
             if any(("_natoms is None" in t and pol) or ("_natoms is not None" in t and not pol) for t, pol in g):
                 ph = c
+    ph_arg = ph.args[0] if ph is not None else None
+    if ph is None:
+        # the text of the count line is chosen first (`field = <blanks> if undeclared else <count>`) and written afterwards
+        import copy as _copy
+        for c in calls_in(setup.node):
+            if call_name(c) == "write" and c.args:
+                for nm_ in [x.id for x in ast.walk(c.args[0]) if isinstance(x, ast.Name)]:
+                    for s_ in walk_no_nested(setup.node):
+                        if isinstance(s_, ast.Assign) and norm(s_.targets[0]) == nm_:
+                            g = [(norm(t), pol) for t, pol in guards_of(s_, pm)]
+                            if any(("_natoms is None" in t and pol) or ("_natoms is not None" in t and not pol) for t, pol in g):
+                                class _S(ast.NodeTransformer):
+                                    def visit_Name(self, n, nm_=nm_, v_=s_.value):
+                                        return _copy.deepcopy(v_) if n.id == nm_ else n
+                                ph, ph_arg = c, _S().visit(_copy.deepcopy(c.args[0]))
     if ph is None:
         raise AnalysisError("R14.1: the count-line write for an undeclared atom count was not found in "
                             "_setup_write_file")
-    ws = _ws_only(ph.args[0])
+    ws = _ws_only(ph_arg)
     ctx.ob("R14.1", setup, ph, ws is True,
            "until close the count line is whitespace only, so int() of it raises in the reader"
            + ("" if ws else " -- the placeholder %s" % ("is not whitespace-only" if ws is False else "could not be folded")),
